@@ -9,6 +9,8 @@ mpgameserver/serializable.py and mpgameserver/http_server.py into Gallina.
       subscript assignments)
   http_server.py -> coq/Gen/WsKernels.v
       WebSocketFrame.serializeHeader / serializeDataHeader / parseHeader
+  connection.py -> coq/Gen/HdrKernels.v
+      PacketIdentifier / PacketType members, PacketHeader.to_bytes
 
 Target vocabulary: Model/StructPack.v (spack = struct.pack for fixed integer formats, reader,
 dict_of_items).  Subset: integer expressions (+ - * // % ** << >> & | abs len), one-operator
@@ -16,7 +18,7 @@ comparisons, truthiness of an integer, conditional expressions, assignments to l
 augmented assignments, if/elif/else, stream.write(...) / hdr.append(...), return, raise.
 Anything else raises Untranslatable: the script then leaves the previous generated file in place (so
 the rest of the development and the extracted driver still build), or writes a file that does not
-compile when there is none, and exits non-zero (2 + 1 for serializable.py + 2 for http_server.py);
+compile when there is none, and exits non-zero (2 + 1 for serializable.py + 2 for http_server.py + 4 for connection.py);
 harness/lib.py records that and ./check reports the broken tie for every property in that cone.
 """
 import ast, sys, os
@@ -35,6 +37,39 @@ EXC = {"ValueError": "EValue", "TypeError": "EType"}
 FCH = {"B": "FB", "b": "Fb", "H": "FH", "h": "Fh", "L": "FL", "l": "Fl", "Q": "FQ", "q": "Fq",
        "?": "Fbool", "f": "Ff", "d": "Fd"}
 SINGLE = set("Bb?")
+
+
+def fmt_fields(node):
+    """like fmt_chars, but also accepts '<N>s' fields: returns fch names and ('s', N) tuples"""
+    import re as _re
+    if not (isinstance(node, ast.Constant) and isinstance(node.value, str)):
+        fail(node, "struct format is not a literal")
+    s = node.value
+    if "s" not in s:
+        return fmt_chars(node)
+    if s[:1] not in (">", "!"):
+        fail(node, "bytes field without an explicit byte order")
+    out = []
+    for m in _re.finditer(r"(\d+)s|(.)", s[1:]):
+        if m.group(1):
+            out.append(("s", int(m.group(1))))
+        elif m.group(2) in FCH:
+            out.append(FCH[m.group(2)])
+        else:
+            fail(node, "unsupported struct format")
+    return out
+
+
+def raw_bytes(n, cx):
+    """an expression that IS bytes (no error possible) -> Coq term of type list byte"""
+    if isinstance(n, ast.Name) and (n.id in cx.bytes or n.id in cx.blocals):
+        return n.id
+    if isinstance(n, ast.Attribute) and n.attr == "value" and isinstance(n.value, ast.Name) and n.value.id in cx.enum_locals:
+        return n.value.id
+    d = dotted(n) if isinstance(n, ast.Attribute) else None
+    if d in cx.attrs and cx.attrs[d][0] == "bytes":
+        return cx.attrs[d][1]
+    fail(n, "bytes value")
 
 
 def fmt_chars(node):
@@ -63,6 +98,9 @@ class Cx:
         self.cls_consts = cls_consts if cls_consts is not None else {}   # (Class, attr) -> coq name
         self.funcs = funcs or {}         # python function name -> coq name of a translated writer
         self.acc = None                  # name of the python accumulator ('stream' or a list variable)
+        self.blocals = set()             # local variables holding bytes built by struct.pack
+        self.enum_locals = set()         # local variables holding a bytes-valued enum member (x.value = the bytes)
+        self.enum_bytes = {}             # (Class, MEMBER) -> coq name of the member's bytes value
 
 
 def dotted(n):
@@ -139,9 +177,32 @@ def bytes_expr(n, cx):
     if isinstance(n, ast.Call) and dotted(n.func) == "struct.pack" and not n.keywords:
         if not n.args:
             fail(n, "struct.pack without a format")
-        f = fmt_chars(n.args[0])
-        args = [iexpr(a, cx) for a in n.args[1:]]
-        return "(spack [%s] [%s])" % ("; ".join(f), "; ".join(args))
+        fields = fmt_fields(n.args[0])
+        if len(fields) != len(n.args) - 1:
+            fail(n, "struct.pack: number of arguments")
+        parts, run_f, run_a = [], [], []
+
+        def flush():
+            if run_f:
+                parts.append("(spack [%s] [%s])" % ("; ".join(run_f), "; ".join(run_a)))
+                del run_f[:], run_a[:]
+        for fld, a in zip(fields, n.args[1:]):
+            if isinstance(fld, tuple):          # ('s', N): a bytes field, padded / cut to N bytes
+                flush()
+                parts.append("(pack_s %d %s)" % (fld[1], raw_bytes(a, cx)))
+            else:
+                run_f.append(fld)
+                run_a.append(iexpr(a, cx))
+        flush()
+        if len(parts) == 1:
+            return parts[0]
+        names = ["p%d" % i for i in range(len(parts))]
+        body = "(Ok (%s))" % " ++ ".join(names)
+        for nm, pt in reversed(list(zip(names, parts))):
+            body = "(do %s <- %s; %s)" % (nm, pt, body)
+        return body
+    if isinstance(n, ast.Name) and n.id in cx.blocals:
+        return "(Ok %s)" % n.id
     if isinstance(n, ast.Name) and n.id in cx.bytes:
         return "(Ok %s)" % n.id
     if isinstance(n, ast.Attribute):
@@ -173,9 +234,31 @@ def stmts(body, cx, fin):
             return "(let out := @nil byte in %s)" % stmts(rest, cx, fin)
         if nm == cx.acc or nm in cx.bytes:
             fail(s, "assignment to the accumulator / a bytes value")
+        v = s.value
+        if isinstance(v, ast.IfExp) and all(isinstance(x, ast.Attribute) and dotted(x) and tuple(dotted(x).split(".")) in cx.enum_bytes
+                                            for x in (v.body, v.orelse)):
+            # ident = Enum.A if cond else Enum.B   (bytes-valued enum members; used through ident.value)
+            if nm in cx.ints or nm in cx.blocals:
+                fail(s, "re-assignment with another type")
+            cx.enum_locals.add(nm)
+            return "(let %s := (if %s then %s else %s) in %s)" % (
+                nm, bexpr(v.test, cx), cx.enum_bytes[tuple(dotted(v.body).split("."))],
+                cx.enum_bytes[tuple(dotted(v.orelse).split("."))], stmts(rest, cx, fin))
+        if isinstance(v, ast.Call) and dotted(v.func) == "struct.pack":
+            if nm in cx.ints or nm in cx.enum_locals:
+                fail(s, "re-assignment with another type")
+            b = bytes_expr(v, cx)
+            cx.blocals.add(nm)
+            return "(do %s <- %s; %s)" % (nm, b, stmts(rest, cx, fin))
+        if nm in cx.blocals or nm in cx.enum_locals:
+            fail(s, "re-assignment with another type")
         e = iexpr(s.value, cx)
         cx.ints.add(nm)
         return "(let %s := %s in %s)" % (nm, e, stmts(rest, cx, fin))
+    if isinstance(s, ast.AugAssign) and isinstance(s.target, ast.Name) and s.target.id in cx.blocals \
+            and isinstance(s.op, ast.Add):
+        nm = s.target.id
+        return "(do w <- %s; let %s := %s ++ w in %s)" % (bytes_expr(s.value, cx), nm, nm, stmts(rest, cx, fin))
     if isinstance(s, ast.AugAssign) and isinstance(s.target, ast.Name) and s.target.id in cx.ints:
         fake = ast.BinOp(left=ast.Name(id=s.target.id, ctx=ast.Load()), op=s.op, right=s.value)
         return "(let %s := %s in %s)" % (s.target.id, iexpr(fake, cx), stmts(rest, cx, fin))
@@ -205,6 +288,8 @@ def stmts(body, cx, fin):
                 and isinstance(v.func.value, ast.Constant) and v.func.value.value == b"" \
                 and len(v.args) == 1 and isinstance(v.args[0], ast.Name) and v.args[0].id == cx.acc:
             return "(Ok out)"
+        if isinstance(v, ast.Name) and v.id in cx.blocals:
+            return "(Ok %s)" % v.id
         if cx.acc is None or cx.acc == "stream":
             return bytes_expr(v, cx)
         fail(s, "return")
@@ -399,6 +484,53 @@ def translate_ws(path):
     return out
 
 
+# ------------------------------------------------------------------ connection.py (PacketHeader.to_bytes)
+
+HDR_ATTRS = {
+    "self.isServer": ("int", "isServer"), "self.ctime": ("int", "ctime"), "self.seq": ("int", "seq"),
+    "self.ack": ("int", "ack"), "self.pkt_type.value": ("int", "pkt_type_value"), "self.length": ("int", "length"),
+    "self.count": ("int", "count"), "self.ack_bits": ("int", "ack_bits"),
+}
+
+
+def translate_hdr(path):
+    mod = ast.parse(open(path, encoding="utf-8").read())
+    out = []
+    enum_bytes = {}
+    pi = find(mod.body, ast.ClassDef, "PacketIdentifier")
+    for s in pi.body:
+        if is_docstring(s):
+            continue
+        if not (isinstance(s, ast.Assign) and len(s.targets) == 1 and isinstance(s.targets[0], ast.Name)
+                and isinstance(s.value, ast.Constant) and isinstance(s.value.value, bytes)):
+            fail(s, "PacketIdentifier member")
+        nm = s.targets[0].id
+        out.append("Definition gen_PacketIdentifier_%s : list byte := map byte_of_Z [%s]." % (nm, "; ".join(str(b) for b in s.value.value)))
+        enum_bytes[("PacketIdentifier", nm)] = "gen_PacketIdentifier_%s" % nm
+    pt = find(mod.body, ast.ClassDef, "PacketType")
+    cx0 = Cx([])
+    members = []
+    for s in pt.body:
+        if is_docstring(s):
+            continue
+        if not (isinstance(s, ast.Assign) and len(s.targets) == 1 and isinstance(s.targets[0], ast.Name)):
+            fail(s, "PacketType member")
+        nm = s.targets[0].id
+        out.append("Definition gen_PacketType_%s : Z := %s." % (nm, iexpr(s.value, cx0)))
+        members.append("gen_PacketType_%s" % nm)
+    out.append("Definition gen_PacketType_members : list Z := [%s]." % "; ".join(members))
+    ph = find(mod.body, ast.ClassDef, "PacketHeader")
+    f = find(ph.body, ast.FunctionDef, "to_bytes")
+    if argnames(f) != (["self"], None):
+        fail(f, "signature")
+    cx = Cx([], attrs=HDR_ATTRS)
+    cx.enum_bytes = enum_bytes
+    body = stmts(f.body, cx, "(Err EOther)")
+    out.append("Definition gen_PacketHeader_to_bytes (isServer ctime seq ack pkt_type_value length count ack_bits : Z) "
+               ": res (list byte) := %s." % body)
+    return out
+
+
 HEAD = ("(* GENERATED by tools/py2v_bytes.py from mpgameserver/%s — do not edit. *)\n"
         "From Model Require Import Base StructPack.\nOpen Scope Z_scope.\n\n")
 
@@ -429,8 +561,9 @@ def main():
     gen = sys.argv[2] if len(sys.argv) > 2 else os.path.join(os.path.dirname(os.path.abspath(__file__)), "..", "coq", "Gen")
     rc1 = emit(os.path.join(gen, "SerKernels.v"), "serializable.py", translate_ser, os.path.join(src, "serializable.py"))
     rc2 = emit(os.path.join(gen, "WsKernels.v"), "http_server.py", translate_ws, os.path.join(src, "http_server.py"))
-    # exit status: bit 0 = serializable.py failed, bit 1 = http_server.py failed (offset by 2: 0 ok)
-    sys.exit(0 if not (rc1 or rc2) else (2 + (1 if rc1 else 0) + (2 if rc2 else 0)))
+    rc3 = emit(os.path.join(gen, "HdrKernels.v"), "connection.py", translate_hdr, os.path.join(src, "connection.py"))
+    # exit status: 0 ok, else 2 + bit 0 (serializable.py) + bit 1 (http_server.py) + bit 2 (connection.py)
+    sys.exit(0 if not (rc1 or rc2 or rc3) else (2 + (1 if rc1 else 0) + (2 if rc2 else 0) + (4 if rc3 else 0)))
 
 
 if __name__ == "__main__":
